@@ -25,6 +25,13 @@ PROPERTIES = {
     "excel": [["Header", "2"], ["Sheet", "2"], ["Encoding", "utf-8"]],
     "ods": [["Header", "1"], ["Sheet", "3"]],
 }
+_TEXT_VALUES = [("Encoding", "klingon"), ("Line delimiter", "xx"), ("Decimal separator", ";"), ("Thousands separator", ";"), ("Allowed characters", "Z...A"), ("Header", "1.5")]
+INVALID_VALUES = {
+    "delimited": _TEXT_VALUES + [("Skip initial space", "maybe"), ("Quoting", "some"), ("Quote character", "ab"), ("Escape character", "x"), ("Item delimiter", "ab")],
+    "fixed": _TEXT_VALUES,
+    "excel": [("Sheet", "0"), ("Sheet", "x"), ("Header", "-1"), ("Allowed characters", "Z...A"), ("Encoding", "klingon")],
+    "ods": [("Sheet", "0"), ("Sheet", "x"), ("Header", "-1"), ("Allowed characters", "Z...A"), ("Encoding", "klingon")],
+}
 INAPPLICABLE = {"delimited": ["Sheet", "1"], "fixed": ["Item delimiter", ";"], "excel": ["Line delimiter", "LF"], "ods": ["Quote character", "'"]}
 CHECKS = {
     "id unique": (["id unique", "IsUnique", "id"], ["id"]),
@@ -157,6 +164,9 @@ def defects(base):
                 yield name, replaced(position, row), position + 1
             else:
                 yield name, inserted(position, row), position + 1
+    # a value outside the documented set, for every property of the format: rejected at that very row
+    for name, value in INVALID_VALUES.get(fmt, ()):
+        yield "invalid-value:%s" % name.lower().replace(" ", "-"), inserted(format_row + 1, ["D", name, value]), format_row + 2
     yield "no-fields", [row for row, k in zip(rows, kind) if k not in ("f", "c")], None
     yield "no-format-at-all", [row for row, k in zip(rows, kind) if k == ""], None
     yield "field-before-format", inserted(format_row, rows[first_field]), format_row + 1
@@ -197,6 +207,10 @@ def defects(base):
             yield "length-negative", replaced(position, with_cell(4, "-1")), position + 1
             for value in ("-1", "-1...", "...-1", "-3...-1", "-1...5"):
                 yield "length-negative:no-example", replaced(position, row[:2] + [""] + row[3:4] + [value] + row[5:]), position + 1
+        if fmt != "fixed" and field_type not in ("Constant", "Integer", "Decimal"):
+            # lower limit above upper limit, also with an upper limit of 0, without an example
+            for value in ("5...0", "1...0", "20...0", "9...3", "2...1", "0...3, 9...8"):
+                yield "length-lower-greater-upper:no-example", replaced(position, row[:2] + [""] + row[3:4] + [value] + row[5:]), position + 1
         if fmt != "fixed" and field_type not in ("Constant", "Integer"):
             # items that overlap or merely share one limit value (limits are inclusive); a later item that encloses an earlier one
             # ("3...5, 1...9") is left out: the statement does not say what happens to it (the implementation lets it pass)
@@ -209,11 +223,14 @@ def defects(base):
             "Choice": [("choice-trailing-comma", '"a",'), ("choice-double-comma", '"a",,"b"'), ("choice-missing-comma", '"a" "b"'), ("choice-without-choices-not-empty", "")],
             "Constant": [("constant-two-tokens", '"K" "L"'), ("constant-empty-rule-not-marked-empty", "")],
             "RegEx": [("regex-unbalanced", "(a")],
+            "DateTime": [("datetime-part-twice", rule) for rule in ("DD.MM.YYYY DD", "YYYY-MM-DD hh:MM:ss", "hh:mm:hh", "hh:mm:ss mm", "YYYY-MM-DD hh:mm:ss.ss", "YYYY-mm-DD hh:mm:ss", "YY-MM-DD YY", "DD.MM.YYYY YYYY")],
         }
         for name, value in rule_defects.get(field_type, []):
             if name == "choice-without-choices-not-empty" and row[3].strip().upper() == "X":
                 continue  # a Choice that may be empty needs no choices
             yield name, replaced(position, with_cell(6, value)), position + 1
+            if field_type == "DateTime":
+                yield name + ":no-example", replaced(position, row[:2] + [""] + row[3:6] + [value]), position + 1
         if field_type == "Constant":
             yield "constant-marked-empty-with-rule", replaced(position, with_cell(3, "X")), position + 1
         if field_type == "Integer":
